@@ -40,6 +40,20 @@ CHECKS['C12'] = dict(text="Theorems (Core, all schedules): with lifespan L and c
   "instance logs replayed through Core.step, per-(instance,call) task counts from the user function's log over single calls "
   "and keep-alive histories with changing lifespans, optional delays inside the watch.", ref="5/C12",
   technique="Coq proof (per-instance counting invariant; race model over generated read order) + trace conformance + oracle")
+CHECKS['C11'] = dict(text="Theorems (Core, all schedules and configurations, non-empty chunks): when a call is done the event sequence "
+  "of every worker instance is empty or init? task+ exit? (init/exit present iff configured; an instance that ran no task runs "
+  "neither), replaced instances satisfy it at any moment, and exactly one exit result is received per worker_exit invocation. "
+  "Tie: generated guards (lazy-init guard, exit-on-pill condition, loop guard), instance logs replayed through Core.step, and the "
+  "user functions' own per-instance logs plus Counter(get_exit_results()) over single calls and keep-alive histories (idle kept-"
+  "alive workers, changed parameters, big exit payloads).", ref="5/C11",
+  technique="Coq proof (per-instance event-shape invariant over all schedules) + trace conformance + event-log oracle")
+CHECKS['C10'] = dict(text="Theorems over a history model of the pool object whose every effect is switched by a fact read off "
+  "pool.py/worker.py/params.py (structural kernels): for every history of calls, setters, keep_alive toggles and shutdowns each "
+  "completed call runs with its own function, ordering mode, lifespan, timeout and the pool's current extras; workers are reused "
+  "iff alive and unchanged; setters and missing keep_alive give fresh workers; __eq__ compares all fields. Tie: kernels + Spec "
+  "lemmas; end-to-end histories on the real pool: results incl. shared objects in force, reuse/freshness from main's own log, "
+  "worker_state private and preserved.", ref="5/C10",
+  technique="Coq proof (induction over call histories, effects generated from source) + history oracle")
 PENDING = {}
 props = [json.loads(l) for l in open(os.path.join(V, 'properties.jsonl'))]
 m = dict(version=1,
